@@ -71,6 +71,21 @@ theorem signature_readers : readers "Certificate.Signature" = ["e_mp_ecdsa_signa
     algorithm identifier with cryptobyte, one re-parses with encoding/asn1) -/
 theorem raw_readers : readers "Certificate.Raw" = ["e_cert_ext_invalid_der", "e_cert_sig_alg_not_match_tbs_sig_alg"] := by decide +kernel
 
+/-- the lints that read signature bytes or whole-object bytes were reviewed **in exactly this text**: the hash of
+    every lint-package function they reach is pinned, so an edit to one of them (say, a byte search over `c.Raw`
+    that is no longer anchored to the to-be-signed part) re-opens the review instead of passing silently.
+    Reviewed: `e_cert_sig_alg_not_match_tbs_sig_alg` — modelled, `raw_walk_ignores_signature`;
+    `e_cert_ext_invalid_der` — unmarshals `c.Raw` with encoding/asn1 and looks at `TbsCertificate.Extensions` only (A-ASN1);
+    `e_mp_ecdsa_signature_encoding_correct` — `len(c.Signature)` only (`signature_readers`);
+    `e_crl_revoked_certificates_field_must_be_empty` walks `c.Raw` with cryptobyte down to `revokedCertificates` inside
+    the TBSCertList and never reaches the signature; `e_crl_empty_revoked_certificates` unmarshals `c.Raw` with
+    encoding/asn1 and looks at `TbsCertList.RevokedCertificates` only (A-ASN1). (C09 quantifies over certificates;
+    the CRL lints are pinned for the same reason.) -/
+theorem sensitive_readers_reviewed : sensitiveReaderBodies =
+    [("e_cert_ext_invalid_der", 15379507351867889202), ("e_cert_sig_alg_not_match_tbs_sig_alg", 8933058133484231263),
+     ("e_crl_empty_revoked_certificates", 4127868731037560474), ("e_crl_revoked_certificates_field_must_be_empty", 13303964325982800165),
+     ("e_mp_ecdsa_signature_encoding_correct", 7808569742351512472)] := by decide +kernel
+
 /-- nothing else derived from the signature or the whole certificate is read by any lint: no
     fingerprints, no validation state, no signature-checking methods -/
 def forbiddenField (f : String) : Bool :=
